@@ -23,5 +23,33 @@ package server
 
 //@ func (se *SSEnv) FinalizeSnapshot [C16]
 //@ noframe
-//@ modifies fileutil.gFlagDir, held(finalizeLock)
+//@ modifies fileutil.gFlagDir, held(finalizeLock), raftio.gDataMutated
 //@ ensures result == nil ==> fileutil.gFlagDir == se.tmpDir
+//@ ghostset raftio.gDataMutated := true
+
+// ---------------------------------------------------------------- steps used by tools.ImportSnapshot (C20)
+// steps that modify a replica's snapshot directories say so through raftio.gDataMutated
+//@ func (env *Env) CreateSnapshotDir [C20]
+//@ trusted file-system effects (creates the snapshot directory of the replica)
+//@ ghostset raftio.gDataMutated := true
+//@ func (se *SSEnv) CreateTempDir [C20]
+//@ trusted file-system effects (creates the temporary snapshot directory)
+//@ ghostset raftio.gDataMutated := true
+// steps that only create the NodeHost's own directories / lock files, or read
+//@ func NewEnv [C20]
+//@ trusted creates the NodeHost directories and lock file if missing; touches no replica data
+//@ ensures result1 == nil ==> result0 != nil
+//@ func (env *Env) Close [C20]
+//@ trusted releases the directory lock
+//@ func (env *Env) CreateNodeHostDir [C20]
+//@ trusted creates the NodeHost's deployment directories if missing; touches no replica data
+//@ func (env *Env) CheckNodeHostDir [C20]
+//@ trusted compares the NodeHost directory flag file with the configuration
+//@ func (env *Env) GetSnapshotDir [C20]
+//@ trusted pure path computation
+//@ func NewSSEnv [C20]
+//@ trusted pure construction of the snapshot environment
+//@ func (se *SSEnv) GetTempDir [C20]
+//@ trusted pure
+//@ func (se *SSEnv) GetFinalDir [C20]
+//@ trusted pure
